@@ -181,6 +181,15 @@ pub fn run(r: &mut Runner) -> &'static str {
     let n = r.n(300_000, 6_000_000);
     r.random("c02.random", n, 200, &gen_case, &judge);
 
+    // chains of related inputs judged back to back (history independence)
+    let n = r.n(40_000, 1_000_000);
+    r.random("c02.chains", n, 260, &|t| crate::gen::gen_chain(t, &gen_case), &|c: &crate::engine::Chain, st: &mut Stats| {
+        for x in &c.0 {
+            judge(x, st)?;
+        }
+        Ok(())
+    });
+
     // ---- the control space
     let quick = r.quick();
     let lens: Vec<u16> = if quick { boundary_lengths(r.seed) } else { (0..=65535u16).collect() };
